@@ -466,4 +466,65 @@ def initRun : Init → Nat → List Origin
     injected.map .injected ++ (if injected.length < k then initRun backup (k - injected.length) else [])
   | .halfAndHalf a b, k => initRun a (k / 2) ++ initRun b (k - k / 2)
 
+/-! ## The pinned tree (before the `fix:` commits), kept only for the witness theorems
+
+These are NOT part of the model of the current code; they record what the defective code computed,
+so that the counterexamples reported by the check on the unrepaired tree are machine-checked. -/
+namespace Pinned
+
+/-- shares rounded from `len(population)`; only an under-shooting last slice was patched -/
+def computeRanges (ws : List Nat) (popLen target : Nat) : List (Nat × Nat) :=
+  let idx := 0 :: cumsumFrom 0 (ws.map (fun w => roundHalfEven (w * popLen) ws.sum))
+  let rs := idx.zip idx.tail
+  match rs.getLast? with
+  | some (a, _) => if a < target then rs.dropLast ++ [(a, target)] else rs
+  | none => rs
+
+/-- `evaluator.evaluate(problem, population)` iterated the input, `list(population)` iterated it again -/
+def elitism (it : Iter) (k : Nat) : List Ind :=
+  let it1 := it.iterate.2
+  (sortDesc it1.iterate.1).take k
+
+/-- number of individuals `InjectInitialPopulationWrapper` yielded for `n` programs and target `k`
+(`none`: `UnboundLocalError`, the loop variable `i` was never bound) -/
+def injectCount (n k : Nat) : Option Nat :=
+  let injected := min n k
+  if injected = 0 then none
+  else
+    let i := injected - 1
+    some (injected + (if i + 1 < k then k - i else 0))
+
+/-- the case list was shuffled once and consumed across winners -/
+def lexFilterConsume (eps : Bool) (mins : List Bool) : List Nat → List Ind → List Ind × List Nat
+  | [], xs => (xs, [])
+  | c :: cs, xs =>
+    if xs.length > 1 then lexFilterConsume eps mins cs (lexFilterCase eps (mins.getD c false) c xs) else (xs, c :: cs)
+
+def lexicaseGo {σ : Type} (src : Source σ) (mins : List Bool) (eps : Bool) :
+    Nat → List Nat → List Ind → σ → Option (List Ind)
+  | 0, _, _, _ => some []
+  | n + 1, cases, cands, s =>
+    let (tc, cases') := lexFilterConsume eps mins cases cands
+    let pick : Option (Ind × σ) :=
+      match tc with
+      | [] => none
+      | [w] => some (w, s)
+      | _ =>
+        match choice src tc s with
+        | (some w, s2) => some (w, s2)
+        | (none, _) => none
+    match pick with
+    | none => none
+    | some (w, s2) =>
+      match lexicaseGo src mins eps n cases' (cands.erase w) s2 with
+      | some rest => some (w :: rest)
+      | none => none
+
+def lexicase {σ : Type} (src : Source σ) (nCases : Nat) (mins : List Bool) (eps : Bool) (k : Nat)
+    (pop : List Ind) (s : σ) : Option (List Ind) :=
+  let (cases, s1) := shuffle src (List.range nCases) s
+  lexicaseGo src mins eps k cases pop s1
+
+end Pinned
+
 end GEVerif.Steps
